@@ -7,8 +7,31 @@ TRUSTED = ['spec/RoundTrip.v same_stereo: per @/@@ atom, tag xor parity of the w
 CLAUSE = 'every @/@@ atom keeps its handedness (judged from the written neighbour order) and every / \\ mark is found again on the same bond and end'
 
 
+AROMATIC_MARKS = ['c1cc/ccc1', 'c1cccc/c1', 'n1cc/ccc1', 'Cc1cc\\ccc1', 'c1cc/c2ccccc2c1', 'C/C=C/c1cc/ccc1', 'c1cc/c(/C=C/C)cc1', 'c1c/cccc1', 'c1ccc/cc1',
+                  'c1cc\\ccc1', 'c/1ccccc1', 'c1ccccc/1', 'c/1ccccc/1', 'c\\1ccccc/1', 'C/c1ccccc1', 'F/C=C/c1cc\\c(F)cc1', 'c1ccc2c(c1)/cc\\2', 'n1/ccccc1',
+                  'c1cc/[nH]c1', 'o1cc/cc1', 'c1c/csc1', 'c1cc/c(C)cc1', 'Oc1cc/cc(/C=C\\C)c1', 'c1cc/nc\\c1']
+
+
+def aromatic_marks(rng, tier):
+    """direction marks written on a bond between two aromatic atoms (c/c, c\\c, marks on ring digits of aromatic atoms): the mark
+    must be found again on the same bond and end whatever kekulisation does with the bond"""
+    import re
+    import enc_side as E
+    out = list(AROMATIC_MARKS)
+    pool = E.gen_smiles_cases(rng, 400 if tier == 'quick' else 8000, mutate=0.0, aromatic_only=True, maxlen=70)
+    for x in pool:
+        spots = [m.start() + 1 for m in re.finditer(r'(?<![\[A-Za-z@+\-0-9%])[cn](?=[cn](?![a-z]))', x)]
+        if not spots:
+            continue
+        y = x
+        for pos in sorted(rng.sample(spots, min(len(spots), rng.choice([1, 1, 2]))), reverse=True):
+            y = y[:pos] + rng.choice('/\\') + y[pos:]
+        out.append(y)
+    return out
+
+
 def run(rep, tier, seed, b):
-    p_c03.run(rep, tier, seed, b, prop_key='same_stereo', clause=CLAUSE, gen=dict(mutate=0.5, stereo_only=True), ident=ID)
+    p_c03.run(rep, tier, seed, b, prop_key='same_stereo', clause=CLAUSE, gen=dict(mutate=0.5, stereo_only=True), ident=ID, extra=aromatic_marks)
 
 
 def replay(data):
